@@ -105,6 +105,8 @@ type VC struct {
 	shadow   map[string]*SV  // interface values stored at constant cells of local objects (metadata only)
 	guardEnv *Env // entry-state environment for the file-write guard of the contract
 	lastRSA  *rsaCall // the most recent rsa.VerifyPKCS1v15 call (ghost capture for contracts)
+	lastSha  *shaCall // the most recent hash.Sum result (ghost capture)
+	lastHex  string   // 160-bit value of the most recent 20-byte argument of a hexadecimal rendering
 	boxedTypes []types.Type // concrete types put into interfaces so far (candidates for loaded interface values)
 	hints    map[string][]string // contract-provided instantiation terms per bound-variable name
 	hyps     []*hyp // quantified hypotheses, instantiated per obligation
